@@ -191,6 +191,8 @@ func feq(a, b float64) bool { return math.Float64bits(a) == math.Float64bits(b) 
 //@ pred rtoInv(m)
 //@   clause#bounds m.srtt >= 0 && m.rttvar >= 0 && m.rto >= rtoMin && m.rto <= m.rtoMax
 
+//@ objinv{C19} rtoManager : rtoInv ; constructors newRTOManager
+
 //@ func newRTOManager
 //@   requires#max rtoMax == 0 || rtoMax >= rtoMin
 //@   ensures rtoInv(result)
@@ -218,7 +220,6 @@ func feq(a, b float64) bool { return math.Float64bits(a) == math.Float64bits(b) 
 
 //@ func rtoManager.reset
 //@   requires rtoInv(m)
-//@   requires#max m.rtoMax >= rtoMin
 //@   ensures rtoInv(m)
 //@   modifies m.srtt, m.rttvar, m.rto
 //@   tags C19
